@@ -342,6 +342,14 @@ func GenMPTHistory(r *rand.Rand, maxOps int) []MOp {
 	if r.Intn(6) == 0 {
 		alpha = []byte("0")
 	}
+	switch r.Intn(12) {
+	case 0: // the digit / letter boundary of the nibble alphabet
+		alpha = []byte("9a")
+	case 1: // the last children of a branch
+		alpha = []byte("0ef")
+	case 2: // all sixteen
+		alpha = []byte("0123456789abcdef")
+	}
 	maxLen := 1 + r.Intn(5) // in byte pairs
 	mkPath := func() []byte {
 		n := 2 * r.Intn(maxLen+1)
